@@ -90,7 +90,7 @@ def run_bytes(chk, nthreads, rounds, hs, label):
     hist = work / "hist.ndjson"
     hist.write_text("\n".join(json.dumps(h) for h in hs) + "\n")
     exe = vlib.build_driver("thr_driver", "plain")
-    env = dict(os.environ, VERIF_TMP=str(work))
+    env = dict(os.environ, VERIF_TMP=str(work), VERIF_RENDER_DIGEST="1")      # rendered text of every record counts as output
     dig = {}
     for mode in ("seq", "run"):
         prefix = work / mode
